@@ -752,6 +752,14 @@ where
 			tmp_context.input_ids.push(i.clone());
 		}
 		ret_slate.adjust_offset(&keychain, &tmp_context)?;
+		// ... and the invoice side's excess key as well, now: the offset of the slate handed
+		// back is then already the offset of the final transaction, and finalization leaves
+		// it alone. (Subtracting that key only at finalization made the difference between
+		// the offsets of the two slates this wallet emits equal to that key.)
+		let mut invoice_key_only = c.clone();
+		invoice_key_only.input_ids.clear();
+		invoice_key_only.output_ids.clear();
+		ret_slate.adjust_offset(&keychain, &invoice_key_only)?;
 	} else {
 		ret_slate.adjust_offset(&keychain, &context)?;
 	}
